@@ -14,6 +14,11 @@ import ast
 from .core import AnalysisError, U
 
 
+def _is_object(d):
+    """Dictionaries that model objects (compared by identity) as opposed to dictionaries that model mappings."""
+    return "name" in d or any(isinstance(k, str) and k.startswith("__") for k in d)
+
+
 class Unknown:
     """A value the domain does not determine; using it in a decision is an error."""
 
@@ -173,14 +178,14 @@ class Interp:
         # ordered comparison of the two symbolic reals "ph" and "pKa": side in {lt, eq, gt}
         if isinstance(left, Sym) or isinstance(right, Sym):
             return Sym.compare(left, op, right, self.env, node)
-        if isinstance(left, dict) and isinstance(right, dict) and isinstance(op, (ast.Eq, ast.NotEq)):
+        if isinstance(left, dict) and isinstance(right, dict) and isinstance(op, (ast.Eq, ast.NotEq)) and _is_object(left) and _is_object(right):
             return (left is right) if isinstance(op, ast.Eq) else (left is not right)
         if isinstance(op, ast.Eq):
             return left == right
         if isinstance(op, ast.NotEq):
             return left != right
         if isinstance(op, (ast.In, ast.NotIn)):
-            if isinstance(left, dict) and isinstance(right, (list, tuple)):
+            if isinstance(left, dict) and _is_object(left) and isinstance(right, (list, tuple)):
                 found = any(x is left for x in right)  # object models are compared by identity, like the objects they stand for
             else:
                 found = left in right
@@ -232,7 +237,12 @@ class Interp:
                     return None
                 return getattr(base, node.func.attr)(*args)
         if self.call_hook is not None:
-            return self.call_hook(self, node)
+            try:
+                return self.call_hook(self, node)
+            except AnalysisError as exc:
+                # an error raised while a callee was being interpreted is never softened into "unknown value"
+                exc.hard = True
+                raise
         raise AnalysisError(f"guard language: unsupported call {name!r}")
 
     # ---------------------------------------------------------------- statements
@@ -304,7 +314,7 @@ class Interp:
         try:
             return self.ev(node)
         except AnalysisError as exc:
-            if "no declared domain" in str(exc) or "cannot index" in str(exc):
+            if ("no declared domain" in str(exc) or "cannot index" in str(exc)) and not getattr(exc, "hard", False):
                 return Unknown(U(node))
             raise
 
